@@ -167,7 +167,11 @@ pub fn soup_program(rng: &mut Rng, n: usize) -> String {
     s
 }
 
-pub const STRESS: [&str; 22] = [
+pub const STRESS: [&str; 25] = [
+    // extreme integers where widths and positions are computed
+    "class X { bits<8> b; let b{0x8000000000000000-1} = 0; let b{9223372036854775807...0} = 1; let b{-9223372036854775808} = 0; let b{0-9223372036854775807} = 1; }\ndef x : X { let b{0xFFFFFFFFFFFFFFFF} = 1; bits<0xFFFFFFFF> w; int i = b{9223372036854775807-0}; }",
+    "class L { list<int> l = [1, 2]; int a = l[0x8000000000000000]; list<int> s = l[9223372036854775807...0]; list<int> t = l[0-9223372036854775807, -9223372036854775808...-1]; }\ndef d : L { bits<64> w = 0x8000000000000000; bit c = w{0x7FFFFFFFFFFFFFFF}; }",
+    "class B<bits<9223372036854775807> p = 0> { bits<0x8000000000000000> q; bits<18446744073709551615> r; list<bits<-1>> s; }\ndef b : B<0b1111111111111111111111111111111111111111111111111111111111111111111>;",
     "class A;\nclass B : A;\nclass A : B { int v = w; }\ndef d : A { let z = 1; }",
     "class Foo;\ndef d : Foo;\nclass Foo { int x = 1; }\ndef e : Foo { let x = 2; }\nclass Foo {}\nclass Foo<int a>;",
     "foreach = [1, 2] in def a;\ndefvar v = 1;\nforeach = [3] in { def b; }\ndefvar w = v;",
@@ -250,6 +254,48 @@ pub fn families(ctx: &Ctx) -> Vec<Family> {
                 }
                 // and as an included file
                 let files = vec![("root.td".to_string(), "include \"inc.td\"\ndef zz;".to_string()), ("inc.td".to_string(), s.to_string())];
+                if !emit(ws_case(&files, "root.td")) {
+                    return;
+                }
+            }
+        })
+        .exhaustive(),
+    );
+
+    // shapes whose cost must not explode with their size: class lattices (two parents per level, every
+    // level reaches the level below along 2^depth paths), long chains, wide parent lists
+    fams.push(
+        Family::new("scaling-shapes", 1, |_c, _rng, emit| {
+            let mut shapes: Vec<String> = Vec::new();
+            for depth in [6usize, 12, 20, 28, 40, 64] {
+                let mut s = String::from("class L0a { int base = 0; }\nclass L0b { int other = 0; }\n");
+                for i in 1..=depth {
+                    s.push_str(&format!("class L{i}a : L{}a, L{}b;\nclass L{i}b : L{}a, L{}b {{ int f{i} = base; }}\n", i - 1, i - 1, i - 1, i - 1));
+                }
+                s.push_str(&format!("def bottom : L{depth}a {{ int v = nosuch; let other = 1; let missing = 2; L0a up = bottom; }}\ndefvar w = bottom.base;\ndef other_user : L{depth}b {{ L{depth}a x = bottom; }}\n"));
+                shapes.push(s);
+            }
+            // a chain of 600 classes, the last one looks a name up that none of them has
+            let mut chain = String::from("class C0 { int root = 1; }\n");
+            for i in 1..600 {
+                chain.push_str(&format!("class C{i} : C{};\n", i - 1));
+            }
+            chain.push_str("def end : C599 { int a = root; int b = nosuch; let root = 2; }\n");
+            shapes.push(chain);
+            // one record with 600 parents
+            let mut wide = String::new();
+            for i in 0..600 {
+                wide.push_str(&format!("class W{i} {{ int w{i} = {i}; }}\n"));
+            }
+            wide.push_str("def all : ");
+            wide.push_str(&(0..600).map(|i| format!("W{i}")).collect::<Vec<_>>().join(", "));
+            wide.push_str(" { int s = w599; int t = nosuch; }\n");
+            shapes.push(wide);
+            for s in shapes {
+                if !emit(ws_case(&[("root.td".into(), s.clone())], "root.td")) {
+                    return;
+                }
+                let files = vec![("root.td".to_string(), "include \"inc.td\"\ndef zz;".to_string()), ("inc.td".to_string(), s)];
                 if !emit(ws_case(&files, "root.td")) {
                     return;
                 }
